@@ -1,13 +1,11 @@
 (* Proofs/ConvBytes.v — BytesConverter against xs:hexBinary and xs:base64Binary. *)
 From Coq Require Import NArith ZArith List Bool Lia.
-From XV Require Import Base.Str Base.PyInt Gen.PyUnicode Gen.ConvTables Model.ConvBytes Spec.XsdPrims Proofs.ConvLemmas.
+From XV Require Import Base.Str Base.PyInt Gen.PyUnicode Gen.ConvTables Model.ConvBytes Model.ConvGuards Spec.XsdPrims Proofs.ConvLemmas.
 Import ListNotations.
 Open Scope N_scope.
 
 Ltac dm := zify; Z.to_euclidean_division_equations; lia.
 
-(* octets *)
-Definition bytes_ok (b : list N) : bool := forallb (fun x => x <? 256) b.
 
 (* ---- finite enumeration ------------------------------------------------ *)
 Fixpoint upto (n : nat) : list N :=
